@@ -217,6 +217,7 @@ def generate(rng, tier, i):
         "grid": grid, "coord_unit": rng.choice(["angstrom", "us", "one"]),
         "coord_dtype": rng.choice(["float64", "float64", "float64", "float32"]),
         "results_as": rng.choice(["list", "list", "tuple", "generator", "iter", "map"]),
+        "windows_layout": rng.choice(["peak_first", "peak_first", "range_first"]),
         "data_unit": rng.choice(["counts", "one"]), "truth": truth,
         "estimates": est, "windows": windows,
         "background": _gen_spec(rng, BKG_NAMES), "peak": _gen_spec(rng, PEAK_NAMES),
@@ -426,6 +427,10 @@ class FitEngine(Engine):
         else:
             rg = windows["ranges"] if isinstance(windows, dict) else windows
             win = sc.array(dims=["x", "range"], values=np.asarray(rg, dtype=float).reshape(-1, 2), unit=u)
+            if scn.get("windows_layout") == "range_first":
+                # sizes {dim: n, 'range': 2} in the other dimension order (what
+                # sc.concat([lo, hi], 'range') gives)
+                win = win.transpose(["range", "x"]).copy()
         kw = {}
         if scn["fit_parameters"]:
             kw["fit_parameters"] = FitParameters(**scn["fit_parameters"])
@@ -1031,7 +1036,7 @@ class FitEngine(Engine):
             del c["interleave"]
             yield c
         for key, val in (("coord_unit", "one"), ("data_unit", "one"), ("coord_dtype", "float64"),
-                         ("results_as", "list"), ("arg_dtype", "float64")):
+                         ("results_as", "list"), ("arg_dtype", "float64"), ("windows_layout", "peak_first")):
             if s.get(key, val) != val:
                 c = copy.deepcopy(s)
                 c[key] = val
